@@ -141,6 +141,8 @@ def replay_otf(rec, ctx, np):
     from prysm import otf
     shape = tuple(rec['shape'])
     psf = np.array(rec['psf'], dtype=float).reshape(shape)
+    if rec['total'] == 0:
+        return          # an all-zero PSF has no MTF
     want2 = np.array(rec['twootfsq'], dtype=float).reshape(shape) / (2.0 * rec['total'] ** 2)
     cy, cx = shape[0] // 2, shape[1] // 2
     fails = []
